@@ -136,20 +136,30 @@ def forbidden_hits():
     return hits
 
 
+# tie modules of OTHER properties that a property's check audits as well: the TLS glue's ties (HandleError / BioRead /
+# BioWrite / Receive / Send with their budget arithmetic) implement C07's timeout semantics for TLS sockets
+EXTRA_TIE_MODULES = {"C07": ["C18Tie"]}
+
+
+def _tie_files(prop):
+    out = []
+    for t in [prop + "Tie"] + EXTRA_TIE_MODULES.get(prop, []):
+        if os.path.exists(os.path.join(LEAN, "SockModel", "Props", t + ".lean")):
+            out.append(t)
+    return out
+
+
 def prop_modules(prop):
     """the Lean modules that hold the theorems of a property: Props/<prop>.lean and, when it exists,
     Props/<prop>Tie.lean (source-derived ties kept in a file of their own, DESIGN.md 0.7.4)"""
-    mods = ["SockModel.Props.%s" % prop]
-    if os.path.exists(os.path.join(LEAN, "SockModel", "Props", prop + "Tie.lean")):
-        mods.append("SockModel.Props.%sTie" % prop)
-    return mods
+    return ["SockModel.Props.%s" % prop] + ["SockModel.Props.%s" % t for t in _tie_files(prop)]
 
 
 def prop_theorems(prop):
     """names (fully qualified) of the theorems in Props/<prop>.lean (and Props/<prop>Tie.lean)"""
     names = _file_theorems(prop)
-    if os.path.exists(os.path.join(LEAN, "SockModel", "Props", prop + "Tie.lean")):
-        names += _file_theorems(prop + "Tie")
+    for t in _tie_files(prop):
+        names += _file_theorems(t)
     return names
 
 
